@@ -6,14 +6,12 @@ arithmetic (`convert_qubit_id_to_first_index`, `convert_qubit_id_to_indices`,
 `convert_qubit_ids_to_indices`), the gate table lookup (`gate`, `gatep`), user gate
 definitions (`gatedecl`, `gatep`, `ugatep`, `cxgatep`, `rbracket`), their instantiation
 (`CustomGateDef.build_op`, `evaluate_param_exps`), `barrier`, `measure`, `reset`, and the final
-`get_circuit`.  The model follows the code as it is:
-
-* a register index is NOT compared with the register size (`h q[3]` with `qreg q[2]` is the
-  qubit after `q`);
-* `reset r;` (whole register) resets the first `size(first register)` qubits whatever `r` is;
-* `measure r[i] -> c[j]` records the raw `i` (not the flat index) in the placeholder;
-* an `idlist` of two or more bare names crashes (`barrier q, r;`);
-* a built-in name always wins over a user definition of the same name.
+`get_circuit`.  The model follows the code as it is (after the `fix:` commits 086cad2 …
+6cd2451): `name[i]` goes through `convert_indexed_qubit` (the index is compared with the
+register size), lists of registers are read element-wise, `reset name;` resets the named
+register, a single-qubit `measure` is keyed by the circuit qubit.  Still as before: a built-in
+name always wins over a user definition of the same name; constant parameter expressions of a
+gate body are evaluated when the gate is defined.
 
 Every exception of the real code is `none` here (the harness compares accept/reject).
 -/
@@ -94,18 +92,21 @@ def regIndices (rs : Regs) (name : String) : Option (List Nat) :=
 
 def totalSize (rs : Regs) : Nat := (rs.map (·.2)).sum
 
-/-- `argument` case of `convert_qubit_ids_to_indices` (no bound check on the index) -/
+/-- `convert_indexed_qubit`: first register of that name; the index must be inside it -/
+def indexedQubit (rs : Regs) (name : String) (i : Nat) : Option Nat :=
+  match firstIndex rs name, regSize rs name with
+  | some o, some sz => if i < sz then some (o + i) else none
+  | _, _ => none
+
+/-- `argument` case of `convert_qubit_ids_to_indices` -/
 def argIndices (rs : Regs) (a : Arg) : Option (List Nat) :=
   match a.idx with
-  | some i => (firstIndex rs a.name).map fun o => [o + i]
+  | some i => (indexedQubit rs a.name i).map fun q => [q]
   | none => regIndices rs a.name
 
-/-- `anylist` case.  `idlist` with ≥ 2 names raises (AttributeError on a Token); a `mixedlist`
-whose leading bare names form an `idlist` of ≥ 2 names raises the same way. -/
+/-- `anylist` case (`idlist` / `mixedlist`): element-wise, in order -/
 def anylistIndices (rs : Regs) (as : List Arg) : Option (List Nat) :=
-  let lead := as.takeWhile (·.idx.isNone)
-  if lead.length ≥ 2 then none
-  else (as.mapM (argIndices rs)).map List.flatten
+  (as.mapM (argIndices rs)).map List.flatten
 
 def nodup [DecidableEq α] : List α → Bool
   | [] => true
@@ -187,15 +188,19 @@ def elabCall (A : Arith V) (s : St V) : GCall V → Option (Op V)
        | none => none)
     | none => none
   | .u params a =>
-    match evalParams A params, a.idx, firstIndex s.qregs a.name, lookupBuiltin s.table "U" with
-    | some vs, some i, some o, some b => mkPrim A b [o + i] vs
-    | _, _, _, _ => none
+    match evalParams A params, a.idx, lookupBuiltin s.table "U" with
+    | some vs, some i, some b =>
+      (match indexedQubit s.qregs a.name i with
+       | some q => mkPrim A b [q] vs
+       | none => none)
+    | _, _, _ => none
   | .cx a b =>
-    match a.idx, b.idx, firstIndex s.qregs a.name, firstIndex s.qregs b.name,
-          lookupBuiltin s.table "CX" with
-    | some i, some j, some oa, some ob, some d =>
-      if oa + i == ob + j then none else mkPrim A d [oa + i, ob + j] []
-    | _, _, _, _, _ => none
+    match a.idx, b.idx, lookupBuiltin s.table "CX" with
+    | some i, some j, some d =>
+      (match indexedQubit s.qregs a.name i, indexedQubit s.qregs b.name j with
+       | some qa, some qb => if qa == qb then none else mkPrim A d [qa, qb] []
+       | _, _ => none)
+    | _, _, _ => none
 
 /-- parameter expressions of a body statement: constants are evaluated now -/
 def bodyPExps (A : Arith V) (formals : List String) (es : List (QE V)) : Option (List (PExp V)) :=
@@ -239,6 +244,11 @@ def elabBody (A : Arith V) (s : St V) (formals qubits : List String) :
     | some b => (elabBody A s formals qubits rest).map (b :: ·)
     | none => none
 
+/-- the range check of the indexed `measure` branch: the loop over `classical_regs` raises when
+a register called `name` has `j` outside it -/
+def clbitOk (cregs : Regs) (name : String) (j : Nat) : Bool :=
+  !cregs.any fun r => r.1 == name && decide (r.2 ≤ j)
+
 /-- `measure` visitor method -/
 def elabMeasure (s : St V) (q c : Arg) : Option (Op V) :=
   match argIndices s.qregs q with
@@ -251,18 +261,15 @@ def elabMeasure (s : St V) (q c : Arg) : Option (Op V) :=
          if qsz != csz then none else
          (firstIndex s.qregs q.name).map fun o =>
            .measure loc ((List.range qsz).map fun i => (o + i, c.name, i))
-       | some i, some j => some (.measure loc [(i, c.name, j)])   -- raw index as key
+       | some _, some j =>
+         if clbitOk s.cregs c.name j then some (.measure loc [(loc.headD 0, c.name, j)])   -- `location[0]`
+         else none
        | _, _ => none)
     | _, _ => none
 
-/-- `reset` visitor method -/
+/-- `reset` visitor method: one `Reset` per qubit the argument names -/
 def elabReset (s : St V) (q : Arg) : Option (List (Op V)) :=
-  match q.idx with
-  | some _ => (argIndices s.qregs q).map fun l => l.map .reset
-  | none =>
-    match s.qregs with
-    | (_, sz) :: _ => some ((List.range sz).map .reset)     -- first register, whatever `q` is
-    | [] => none
+  (argIndices s.qregs q).map fun l => l.map .reset
 
 def elabStmt (A : Arith V) (s : St V) : Stmt V → Option (St V)
   | .incl _ => some s
